@@ -382,11 +382,15 @@ func (v *DataModelView) GenerateDataView(dataParam *DataModelParam) string {
 	// typeMap := dataParam.App.GetTypes()
 	// TODO: Actually put The app/project name and the app in a struct so strings.split and join dont need to be used
 	entityNames := []string{}
+	// the application of every entity: it cannot be read off the joined name, an application name may contain "."
+	entityApps := map[string]string{}
 	for _, app := range dataParam.Mod.Apps {
+		entityApp := syslutil.JoinAppName(app.GetName())
 		for entityName, entityValue := range app.GetTypes() {
-			entityName = syslutil.JoinAppName(app.GetName()) + "." + entityName
+			entityName = entityApp + "." + entityName
 			if entityValue.Type != nil {
 				typeMap[entityName] = entityValue
+				entityApps[entityName] = entityApp
 				entityNames = append(entityNames, entityName)
 			} else {
 				ignoredTypes[entityName] = struct{}{}
@@ -396,7 +400,7 @@ func (v *DataModelView) GenerateDataView(dataParam *DataModelParam) string {
 
 	sort.Strings(entityNames)
 	for _, entityName := range entityNames {
-		if dataParam.Epname && strings.Split(entityName, ".")[0] != appName {
+		if dataParam.Epname && entityApps[entityName] != appName {
 			continue
 		}
 		entityType := typeMap[entityName]
